@@ -396,11 +396,15 @@ def b_scalar(P, s, a, b, c, name):
     k = SCALARS[a % len(SCALARS)]
     if name in ("div_scalar", "rdiv_scalar") and k == 0.0:
         k = 4.0
-    form = b % 3
+    form = b % 6
     if form == 1:
         kk = torch.tensor(k, dtype=t.dtype)
     elif form == 2:
         kk = torch.tensor(k)
+    elif form in (3, 4, 5):
+        # a one-element tensor WITH dimensions (a temperature kept as (1,) or (1, 1)): broadcasting semantics, not a scalar
+        nd = [1, max(1, t.ndim), t.ndim + 1][form - 3]
+        kk = torch.full((1,) * nd, k, dtype=t.dtype if c % 2 == 0 else torch.float32)
     else:
         kk = k
     # `factor`: the dequantized operand carries an absolute error of eta/2 when it is subnormal, which the float op amplifies
